@@ -10,7 +10,7 @@
 (* Verdict line: <<"VERDICT", tid, firstFailingPropertyClause,             *)
 (*                 firstFailingModelClause, knownFindingTag>>              *)
 (***************************************************************************)
-EXTENDS Filters, Json, IOUtils, TLC, TLCExt
+EXTENDS Filters, PropagateAnchors, Json, IOUtils, TLC, TLCExt
 
 Traces == ndJsonDeserialize(IOEnv.TRACE_FILE)
 
@@ -29,6 +29,14 @@ Model(t) ==
     [] t.filter = "ReverseContourDirection"        -> ReverseModel(t.before, inc)
     [] t.filter = "Transformations"                -> TransformationsModel(t.before, inc, t.opt)
     [] OTHER                                       -> [gs |-> t.after, mod |-> SetOf(t.modified)]
+
+\* PropagateAnchors: opt = [cps, marks, ligmark] (see PropagateAnchors.tla)
+Env(t) == [cps |-> t.opt.cps, marks |-> SetOf(t.opt.marks), ligmark |-> SetOf(t.opt.ligmark)]
+PropModelOK(t) ==
+  LET inc == SetOf(t.inc)  env == Env(t) IN
+  PropagateModelled(t.before, env, inc) =>
+    /\ \A n \in DOMAIN t.before : n \in DOMAIN t.after /\ NXY(t.after[n].anchors) = PropagateModelAnchors(t.before, env, inc)[n]
+    /\ SetOf(t.modified) = PropagateModelModified(t.before, env, inc)
 
 RenderFilters == {"DecomposeComponents", "DecomposeTransformedComponents", "FlattenComponents"}
 
@@ -74,11 +82,13 @@ Clauses(t) ==
      <<"idempotent",          "P", Has(t, "again") => t.again = t.after>>,
      <<"anchors-appended",    "P", t.filter = "PropagateAnchors" => AnchorsOnlyAppended(t.before, t.after)>>,
      <<"anchors-follow",      "P", t.filter = "PropagateAnchors" => NewAnchorsFollowComponents(t.before, t.after)>>,
+     <<"anchors-complete",    "P", t.filter = "PropagateAnchors" => AnchorsComplete(t.before, t.after, Env(t), SetOf(t.inc))>>,
      <<"sort-permutes",       "P", t.filter = "SortContours" =>
                                       \A n \in DOMAIN t.before :
                                          /\ n \in DOMAIN t.after /\ SameBag(t.after[n].cs, t.before[n].cs)
                                          /\ [t.after[n] EXCEPT !.cs = <<>>] = [t.before[n] EXCEPT !.cs = <<>>]>>,
      <<"inverse-sane",        "M", t.filter = "Transformations" => Compose(XMatrix(t.opt), t.opt.inv) = Ident>>,
+     <<"model-propagate",     "M", t.filter = "PropagateAnchors" => PropModelOK(t)>>,
      <<"model-successor",     "M", Model(t).gs = t.after>>,
      <<"model-modified",      "M", Model(t).mod = mod>> >>
 
